@@ -564,6 +564,9 @@ def handle (st : Option StState) (line : String) : Option StState × String :=
   | "pol" :: rest => (st, handlePol rest)
   | "compat" :: rest => (st, handleCompat rest)
   | "lockpair" :: rest => (st, handleLockpair rest)
+  | "months" :: rest => (st, match parseInts 6 rest with
+      | some ([sy, sm, sd, ey, em, ed], _) => toString (Gen.Policy.lifetimeInMonths sy sm sd ey em ed)
+      | _ => "bad-op")
   | _ => (st, "bad-op")
 
 def run (_ : List String) : IO UInt32 := do
